@@ -40,3 +40,24 @@ def bare_db():
     db.sort_attribute_values = False
     db._autoincrements = collections.defaultdict(int)
     return db
+
+
+def msg(fmt, *args):
+    """Diagnostic text of a failed check.  Under CrossHair nothing symbolic may be formatted (repr of a
+    symbolic value makes CrossHair drop the path as 'proxy intolerance'), so only the constant part is used;
+    the real-stack replay produces the full text."""
+    if SYMBOLIC:
+        return fmt
+    try:
+        return fmt % args
+    except Exception:
+        return fmt + " " + repr(args)
+
+
+def pick(v, alphabet):
+    """v is constrained to `alphabet`: returns the matching CONSTANT (a concrete object), so that C-level code
+    (float(), hashing, % formatting) downstream sees concrete values while the choice itself stays a solver decision"""
+    for a in alphabet:
+        if v == a:
+            return a
+    raise AssertionError("value outside its alphabet")
